@@ -53,8 +53,9 @@ class _V(object):
 
 
 class _TDir(D.DirectoryNode):
-    def __init__(self, ident, obj):
+    def __init__(self, ident, obj, lit=False):
         self.ident, self.obj = ident, obj      # ident: node object, obj: underlying storage object (shared by aliases)
+        self.lit = lit                         # a literal (DIR2-LIT) immutable directory: no verify cap, no storage index
         self.kids = {}
         self.list_calls = 0
 
@@ -63,13 +64,13 @@ class _TDir(D.DirectoryNode):
         return defer.succeed(dict(self.kids))
 
     def get_verify_cap(self):
-        return _V(self.obj)
+        return None if self.lit else _V(self.obj)
 
     def get_uri(self):
-        return b"URI:DIR2:node%d-obj%d" % (self.ident, self.obj)
+        return (b"URI:DIR2-LIT:node%d-obj%d" if self.lit else b"URI:DIR2:node%d-obj%d") % (self.ident, self.obj)
 
     def get_storage_index(self):
-        return b"SI-%02d" % self.obj + b"-" * 11
+        return None if self.lit else b"SI-%02d" % self.obj + b"-" * 11
 
     def get_size(self):
         return 100 + self.obj
@@ -133,7 +134,8 @@ class _RecWalker(object):
         return "done"
 
 
-# node kinds: 'D' directory, 'C' immutable CHK file, 'M' mutable file, 'L' literal file, 'U' unknown
+# node kinds: 'D' directory, 'E' literal immutable directory (no verify cap; may only hold immutable files), 'C' immutable CHK file,
+# 'M' mutable file, 'L' literal file, 'U' unknown
 def _build(kinds, bits, alias_bits):
     """nodes[0] is the root directory. bits[i][j]: directory i links object j under the name 'e<i><j>'.
     alias_bits[i][j]: directory i ALSO links a second node object for object j (same verify cap) under 'a<i><j>'."""
@@ -142,6 +144,8 @@ def _build(kinds, bits, alias_bits):
     for (i, k) in enumerate(kinds):
         if k == "D":
             nodes.append(_TDir(i, i))
+        elif k == "E":
+            nodes.append(_TDir(i, i, lit=True))
         elif k == "C":
             nodes.append(_ImmFile(i, i))
         elif k == "M":
@@ -152,7 +156,7 @@ def _build(kinds, bits, alias_bits):
             nodes.append(UnknownNode(None, b"ro.lafs://unknown-%d" % i))
     aliases = {}
     for i in range(n):
-        if kinds[i] != "D":
+        if kinds[i] not in ("D", "E"):
             continue
         for j in range(n):
             if bits[i][j]:
@@ -190,7 +194,7 @@ def _model_reachable(kinds, bits, alias_bits):
     while changed:
         changed = False
         for i in range(n):
-            if reach[i] and kinds[i] == "D":
+            if reach[i] and kinds[i] in ("D", "E"):
                 for j in range(n):
                     if (bits[i][j] or (alias_bits[i][j] and kinds[j] in ("D", "C", "M"))) and not reach[j]:
                         reach[j] = True
@@ -198,13 +202,23 @@ def _model_reachable(kinds, bits, alias_bits):
     return reach
 
 
-def _links_to(kinds, bits, j, reach):
-    """number of links to object j from reachable directories (for objects without a verify cap every link is reported)"""
-    c = 0
-    for i in range(len(kinds)):
-        if reach[i] and kinds[i] == "D" and bits[i][j]:
-            c += 1
-    return c
+def _visits(kinds, bits, reach):
+    """visits[j]: how often object j is walked. Objects with a verify cap: once if reachable. Objects without one (literal files and
+    directories, unknown caps) cannot be recognised again: once per link from each visit of a linking directory (literal directories hold
+    immutable files only, so this terminates)."""
+    n = len(kinds)
+    visits = [0] * n
+    for j in range(n):
+        if reach[j] and kinds[j] in ("D", "C", "M"):
+            visits[j] = 1
+    # literal directories are only linked from 'D' directories here; then their children
+    for j in range(n):
+        if kinds[j] == "E":
+            visits[j] = sum(1 for i in range(n) if reach[i] and kinds[i] == "D" and bits[i][j])
+    for j in range(n):
+        if kinds[j] in ("L", "U"):
+            visits[j] = sum(visits[i] for i in range(n) if kinds[i] in ("D", "E") and bits[i][j])
+    return visits
 
 
 def _check(kinds, bits, alias_bits, walker_kind):
@@ -235,10 +249,12 @@ def _check(kinds, bits, alias_bits, walker_kind):
             return "deep-stats failed: %r" % (res["stats"],)
         added = None
     # the model's expectation
+    visits = _visits(kinds, bits, reach)
     want_dirs = [j for j in range(n) if reach[j] and kinds[j] == "D"]
     want_ver = [j for j in range(n) if reach[j] and kinds[j] in ("D", "C", "M")]        # objects with a verify cap: exactly once
-    want_lit = sum(_links_to(kinds, bits, j, reach) for j in range(n) if kinds[j] == "L")
-    want_unk = sum(_links_to(kinds, bits, j, reach) for j in range(n) if kinds[j] == "U")
+    want_lit = sum(visits[j] for j in range(n) if kinds[j] == "L")
+    want_unk = sum(visits[j] for j in range(n) if kinds[j] == "U")
+    want_ldir = sum(visits[j] for j in range(n) if kinds[j] == "E")
     if added is not None:
         seen = {}
         nolink = 0
@@ -257,21 +273,23 @@ def _check(kinds, bits, alias_bits, walker_kind):
                 return "object %d (%s) reported %d times" % (j, kinds[j], seen.get(j, 0))
         if sorted(seen.keys()) != want_ver:
             return "unreachable object reported: %r vs %r" % (sorted(seen.keys()), want_ver)
-        if nolink != want_lit + want_unk:
-            return "literal/unknown children: %d reports for %d links" % (nolink, want_lit + want_unk)
+        if nolink != want_lit + want_unk + want_ldir:
+            return "literal/unknown children: %d reports for %d links" % (nolink, want_lit + want_unk + want_ldir)
         ent = sorted(p.obj for (p, ch) in w.entered)
-        if ent != want_dirs:
-            return "enter_directory called for %r, reachable directories are %r" % (ent, want_dirs)
-        for j in want_dirs:
-            lc = nodes[j].list_calls + (aliases[j].list_calls if j in aliases else 0)
-            if lc != 1:
-                return "directory %d listed %d times" % (j, lc)
+        want_ent = sorted(want_dirs + [j for j in range(n) if kinds[j] == "E" for _ in range(visits[j])])
+        if ent != want_ent:
+            return "enter_directory called for %r, expected %r" % (ent, want_ent)
+        for j in range(n):
+            if kinds[j] in ("D", "E"):
+                lc = nodes[j].list_calls + (aliases[j].list_calls if j in aliases else 0)
+                if lc != visits[j]:
+                    return "directory %d listed %d times, expected %d" % (j, lc, visits[j])
         if added[0][0] is not root or added[0][1] != []:
             return "root not reported first with the empty path"
         return True
     st = res["stats"]
-    if st["count-directories"] != len(want_dirs):
-        return "count-directories %d, reachable %d" % (st["count-directories"], len(want_dirs))
+    if st["count-directories"] != len(want_dirs) + want_ldir:
+        return "count-directories %d, expected %d" % (st["count-directories"], len(want_dirs) + want_ldir)
     n_c = len([j for j in want_ver if kinds[j] == "C"])
     n_m = len([j for j in want_ver if kinds[j] == "M"])
     if st["count-immutable-files"] != n_c or st["count-mutable-files"] != n_m or st["count-literal-files"] != want_lit or st["count-unknown"] != want_unk:
@@ -280,18 +298,19 @@ def _check(kinds, bits, alias_bits, walker_kind):
         return "count-files"
     if st["size-immutable-files"] != sum(1000 + j for j in want_ver if kinds[j] == "C") or st["size-literal-files"] != 5 * want_lit:
         return "sizes"
-    if st["size-directories"] != sum(100 + j for j in want_dirs):
+    all_dirs = want_dirs + [j for j in range(n) if kinds[j] == "E" for _ in range(visits[j])]
+    if st["size-directories"] != sum(100 + j for j in all_dirs):
         return "size-directories"
-    if st["largest-directory"] != max(100 + j for j in want_dirs):
+    if st["largest-directory"] != max(100 + j for j in all_dirs):
         return "largest-directory"
-    if st["largest-directory-children"] != max(len(nodes[j].kids) for j in want_dirs):
+    if st["largest-directory-children"] != max(len(nodes[j].kids) for j in all_dirs):
         return "largest-directory-children"
     if st["largest-immutable-file"] != max([1000 + j for j in want_ver if kinds[j] == "C"] + [0]):
         return "largest-immutable-file"
     if walker_kind == 1:
         man = res["manifest"]
-        if len(man) != len(want_ver) + want_lit + want_unk:
-            return "manifest has %d entries, expected %d" % (len(man), len(want_ver) + want_lit + want_unk)
+        if len(man) != len(want_ver) + want_lit + want_unk + want_ldir:
+            return "manifest has %d entries, expected %d" % (len(man), len(want_ver) + want_lit + want_unk + want_ldir)
         for (path, cap) in man:
             target = _resolve(root, list(path))
             if target is None or target.get_uri() != cap:
@@ -316,10 +335,10 @@ def _bits_of(x, nbits):
 def _ndirs(kinds):
     nd = 0
     for k in kinds:
-        if k == "D":
+        if k in ("D", "E"):
             nd += 1
-    if list(kinds[:nd]) != ["D"] * nd or nd == 0:
-        raise hlib.HarnessError("kinds must list the directories first: %r" % (kinds,))
+    if any(k not in ("D", "E") for k in kinds[:nd]) or nd == 0 or kinds[0] != "D":
+        raise hlib.HarnessError("kinds must list the directories first (root 'D'): %r" % (kinds,))
     return nd
 
 
@@ -343,6 +362,9 @@ def h_traverse(adj: int, alias: int, walker: int) -> bool:
     for i in range(nd):
         for j in range(n):
             bits[i][j] = ad[i * n + j]
+            # a literal directory holds immutable files only, and is itself only linked from ordinary directories
+            if bits[i][j] and ((kinds[i] == "E" and kinds[j] not in ("C", "L")) or (kinds[i] == "E" and kinds[j] == "E")):
+                assume(False)
     pos = _alias_positions(kinds)
     al = _bits_of(alias, len(pos))
     for (t, (i, j)) in enumerate(pos):
